@@ -22,6 +22,10 @@ func drawGaps(t *rapid.T, n int, rich bool) []string {
 			gaps[i] = "  "
 		case k == 11:
 			gaps[i] = "\t"
+			if rich && rapid.IntRange(0, 3).Draw(t, "lonecr") == 0 {
+				// a carriage return that is not part of a CRLF pair is plain whitespace, not a line break
+				gaps[i] = rapid.SampledFrom([]string{"\r", " \r ", "\r\r\n", "\t\r"}).Draw(t, "crgap")
+			}
 		case k <= 14:
 			gaps[i] = nl
 		case k == 15:
